@@ -28,6 +28,10 @@ type epSpec struct {
 	refused   bool   // client kinds: nothing listens on the address
 	frames    int    // frames fed per transport
 	peerGoes  bool   // server kinds: first peer disconnects shortly before the close
+	lateOpen  bool   // serial: the device open that follows initialization completes only after Close has begun
+	openGate  chan struct{}
+	opens     int
+	allPipes  []*sim.Pipe
 	port      int
 	pipe      *sim.Pipe
 	listener  net.Listener
@@ -52,7 +56,7 @@ func (w *c12World) describe() string {
 	var b strings.Builder
 	fmt.Fprintf(&b, "consumer=%s pauseAfter=%d closeAfter=%v closeOnParkedWriter=%v writers=%d heartbeat=%v shortReconnect=%v\n", w.consumer, w.pauseAfter, w.closeAfter, w.closeOnPark, w.writers, w.heartbeat, w.shortRetry)
 	for i, e := range w.eps {
-		fmt.Fprintf(&b, " endpoint %d: %s peers=%d gate=%v refused=%v frames=%d peerDisconnects=%v\n", i, e.kind, e.peers, e.gate, e.refused, e.frames, e.peerGoes)
+		fmt.Fprintf(&b, " endpoint %d: %s peers=%d gate=%v refused=%v frames=%d peerDisconnects=%v openCompletesDuringClose=%v\n", i, e.kind, e.peers, e.gate, e.refused, e.frames, e.peerGoes, e.lateOpen)
 	}
 	return b.String()
 }
@@ -96,7 +100,7 @@ func init() {
 
 func TestC12Close(t *testing.T) {
 	rec := evid.New(t, "C12", "generated node configurations (custom, TCP/UDP server with peers, TCP/UDP client against a live or refusing address, serial through the hook) with traffic, gated (blocked) transports, a consumer that is absent, running or paused, concurrent Write* callers and a generated close point (immediately, after a delay, once a writer is parked in the transport); Close must return within a bound far above normal (on a miss two goroutine dumps prove the deadlock), afterwards no goroutine started by the library is alive, every listening port can be bound again, accepted connections are closed, each custom transport was closed exactly once, Events() is closed, and racing/following Write* calls return; non-trivial = close while a goroutine is known to be blocked (parked writer, paused/absent consumer with pending events, client in back-off); distinct by hash of the scenario")
-	rec.Require("blocked-writer", "no-consumer", "paused-consumer", "client-backoff", "racing-writers", "tcps", "udps", "tcpc", "udpc", "serial", "custom")
+	rec.Require("blocked-writer", "no-consumer", "paused-consumer", "client-backoff", "open-completes-during-close", "racing-writers", "tcps", "udps", "tcpc", "udpc", "serial", "custom")
 	evid.Check(t, rec, evid.N(250, 700), func(t *rapid.T) {
 		w := &c12World{}
 		ne := rapid.IntRange(1, 4).Draw(t, "neps")
@@ -107,6 +111,7 @@ func TestC12Close(t *testing.T) {
 			e.refused = rapid.Bool().Draw(t, "refused")
 			e.frames = rapid.IntRange(0, 20).Draw(t, "frames")
 			e.peerGoes = rapid.IntRange(0, 3).Draw(t, "peer_goes") == 0
+			e.lateOpen = e.kind == "serial" && rapid.IntRange(0, 2).Draw(t, "late_open") == 0
 			w.eps = append(w.eps, e)
 		}
 		w.consumer = rapid.SampledFrom([]string{"none", "running", "running", "paused"}).Draw(t, "consumer")
@@ -167,12 +172,20 @@ func runC12(w *c12World) ([]string, error) {
 			return nil, errors.New("no such device")
 		}
 		atomic.AddInt32(&serialOpened, 1)
+		e.mu.Lock()
+		e.opens++
+		wait := e.lateOpen && e.opens == 2
+		e.mu.Unlock()
+		if wait {
+			<-e.openGate // released by the scenario a few milliseconds after Close was called
+		}
 		p := sim.NewPipe()
 		if e.gate {
 			p.BlockWrites()
 		}
 		e.mu.Lock()
 		e.pipe = p
+		e.allPipes = append(e.allPipes, p)
 		e.mu.Unlock()
 		return p, nil
 	}
@@ -226,6 +239,7 @@ func runC12(w *c12World) ([]string, error) {
 			e.port = sim.FreePort()
 			endpoints = append(endpoints, gomavlib.EndpointUDPClient{Address: sim.Addr(e.port)})
 		case "serial":
+			e.openGate = make(chan struct{})
 			dev := fmt.Sprintf("/dev/ttyVERIF%d", i)
 			serialPipes[dev] = e
 			endpoints = append(endpoints, gomavlib.EndpointSerial{Device: dev, Baud: 57600})
@@ -358,6 +372,13 @@ func runC12(w *c12World) ([]string, error) {
 			blocked = append(blocked, "client-backoff")
 		}
 	}
+	for _, e := range w.eps {
+		if e.lateOpen {
+			blocked = append(blocked, "open-completes-during-close")
+			gate := e.openGate
+			time.AfterFunc(3*time.Millisecond, func() { close(gate) })
+		}
+	}
 	dur, cerr := closeNode(n, bound)
 	if cerr != nil {
 		close(stop)
@@ -455,10 +476,12 @@ func runC12(w *c12World) ([]string, error) {
 			}
 		case "serial":
 			e.mu.Lock()
-			p := e.pipe
+			ps := append([]*sim.Pipe(nil), e.allPipes...)
 			e.mu.Unlock()
-			if p != nil && p.CloseCount() < 1 {
-				return blocked, fmt.Errorf("endpoint %d: serial device left open after Close", i)
+			for k, p := range ps {
+				if p.CloseCount() < 1 {
+					return blocked, fmt.Errorf("endpoint %d: serial device handle %d of %d (opened by the node) is still open after Close returned", i, k, len(ps))
+				}
 			}
 		}
 	}
